@@ -215,7 +215,8 @@ def check_helpers(sp, rng):
     fails = []
 
     def cmp(what, args, r):
-        if r is None:
+        if r is None:   # a valid argument on a valid schedule must not raise: the iterations would be lost
+            fails.append({"what": what, "args": args, "schedule": sp, "klass": None, "detail": {"result": "raised"}})
             return
         img = D.image_of(r)
         if not D.same_multiset(base, img):
@@ -269,6 +270,119 @@ def check_backtrack(tp, sp, cdesc):
     return fails, len(out)
 
 
+# ---- the affine-map view of a pattern (what the pass writes into dart.schedule) -----------------------
+def check_affine_view(sp, rng):
+    """AffineTransform -> AffineMap -> AffineTransform is the identity and both evaluate alike."""
+    import numpy as np
+    from snaxc.ir.dart.affine_transform import AffineTransform
+    fails = []
+    for (bs, rows, b) in sp:
+        at = D.mk_at(rows, b, len(bs))
+        try:
+            m = at.to_affine_map()
+            back = AffineTransform.from_affine_map(m)
+        except Exception as e:
+            fails.append({"what": "affine_view_raises", "schedule": sp, "klass": None, "detail": repr(e)[:200]})
+            break
+        pts = [[0] * len(bs), [rng.randint(0, 5) for _ in bs], [1] * len(bs)]
+        bad = (back != at) or any(list(m.eval(x, [])) != [int(v) for v in at.eval(np.array(x, dtype=np.int_))] for x in pts)
+        if bad:
+            fails.append({"what": "affine_view", "schedule": sp, "klass": None,
+                          "detail": {"A": rows, "b": b, "map": str(m), "back_A": back.A.tolist(), "back_b": back.b.tolist()}})
+            break
+    return fails
+
+
+# ---- the pass: dart.operation vs dart.schedule around `dart-scheduler` -------------------------------
+_GEMM = """
+func.func @{name}(%arg0 : memref<{m}x{ka}xi8>, %arg1 : memref<{k}x{n}xi8, strided<[1, {k}]>>, %arg2 : memref<{m}x{n}xi32>) {{
+  %0 = arith.constant 0 : i32
+  "dart.operation"(%arg0, %arg1, %arg2) <{{patterns = [affine_map<({dims}) -> ({pa})>, affine_map<({dims}) -> ({pb})>, affine_map<({dims}) -> ({pc})>], accelerator = "snax_gemmx", operandSegmentSizes = array<i32: 2, 1>}}> ({{
+  ^bb0(%1 : !dart.stream<i8>, %2 : !dart.stream<i8>, %3 : !dart.stream<i32>):
+    %4 = "dart.generic"(%1, %2, %0, %0) <{{library_call = "snax_gemmx"}}> ({{
+    ^bb1(%arg3 : i8, %arg4 : i8, %arg5 : i32, %arg6 : i32, %arg7 : i32):
+      %5 = kernel.qmac %arg3, %arg4 zp_lhs : %arg5 zp_rhs : %arg6 : i8, i8, i32, i32 -> i32
+      dart.yield %5 : i32
+    }}) : (!dart.stream<i8>, !dart.stream<i8>, i32, i32) -> !dart.stream<i32>
+    dart.yield %4 : !dart.stream<i32>
+  }}) : (memref<{m}x{ka}xi8>, memref<{k}x{n}xi8, strided<[1, {k}]>>, memref<{m}x{n}xi32>) -> ()
+  func.return
+}}
+"""
+
+
+def gen_pass_module(rng):
+    """1-3 quantised matmul layers for snax_gemmx: sizes from multiples of 8, iteration dims in a random order,
+    optional constant offset in the A operand's reduction index."""
+    layers = []
+    for i in range(rng.choice([1, 1, 2, 2, 3])):
+        m, n, k = (rng.choice([8, 16, 16, 24, 32]) for _ in range(3))
+        perm = rng.sample(range(3), 3)        # iteration dim used for (m, n, k)
+        off = rng.choice([0, 0, 0, 2, 1, -1])
+        if layers and rng.random() < 0.6:     # same maps as the first layer, (usually) another shape
+            perm, off = layers[0]["_perm"], layers[0]["_off"]
+        dm, dn, dk = (f"d{q}" for q in perm)
+        layers.append({"name": f"layer{i}", "m": m, "n": n, "k": k, "ka": k + abs(off) if off else k, "dims": "d0, d1, d2",
+                       "pa": f"{dm}, {dk}" + (f" + {off}" if off > 0 else f" - {-off}" if off < 0 else ""),
+                       "pb": f"{dk}, {dn}", "pc": f"{dm}, {dn}", "_perm": perm, "_off": off})
+    return layers
+
+
+def check_pass(layers):
+    from collections import Counter
+    from itertools import product as iproduct
+    from xdsl.parser import Parser
+    from snaxc.dialects import dart
+    from snaxc.tools.snax_opt_main import SNAXOptMain
+    from snaxc.transforms.dart.dart_scheduler import DartSchedulerPass
+    from snaxc.transforms.insert_accfg_op import InsertAccOp
+
+    def visits(bounds, maps):
+        """multiset of operand-index tuples; the affine maps are sampled with AffineMap.eval at 0 and the unit
+        points (they are linear), checked on two more points, then applied to the whole box with numpy"""
+        import numpy as np
+        nd = len(bounds)
+        zero = [0] * nd
+        cols = []
+        for mp in maps:
+            b = np.array(mp.eval(zero, []), dtype=np.int64)
+            A = np.zeros((len(b), nd), dtype=np.int64)
+            for j in range(nd):
+                e = list(zero)
+                e[j] = 1
+                A[:, j] = np.array(mp.eval(e, []), dtype=np.int64) - b
+            for x in ([2] * nd, list(range(1, nd + 1))):
+                assert list(A @ np.array(x) + b) == list(mp.eval(x, [])), "non-linear affine map"
+            cols.append((A, b))
+        grid = np.indices(bounds).reshape(nd, -1).T if nd else np.zeros((1, 0), dtype=np.int64)
+        allc = np.concatenate([grid @ A.T + b for (A, b) in cols], axis=1)
+        uniq, cnt = np.unique(allc, axis=0, return_counts=True)
+        return Counter({tuple(int(v) for v in u): int(c) for u, c in zip(uniq, cnt)})
+
+    text = "".join(_GEMM.format(**l) for l in layers)
+    xctx = SNAXOptMain(args=[__file__]).ctx
+    mod = Parser(xctx, text).parse_module()
+    InsertAccOp("snax_gemmx").apply(xctx, mod)
+    refs = [(tuple(op.get_static_pattern_bounds()), [p.data for p in op.patterns.data])
+            for op in mod.walk() if isinstance(op, dart.OperationOp)]
+    try:
+        DartSchedulerPass().apply(xctx, mod)
+        mod.verify()
+    except Exception as e:
+        return [{"what": "pass_raises", "layers": layers, "klass": None, "detail": repr(e)[:300]}]
+    scheds = [op for op in mod.walk() if isinstance(op, dart.ScheduleOp)]
+    if len(scheds) != len(refs):
+        return [{"what": "pass_unscheduled", "layers": layers, "klass": None, "detail": {"operations": len(refs), "schedules": len(scheds)}}]
+    for i, ((rb, rm), op) in enumerate(zip(refs, scheds)):
+        bounds = tuple(b.value.data for b in op.bounds.data)
+        maps = [p.data for p in op.patterns.data]
+        if visits(rb, rm) != visits(bounds, maps):
+            return [{"what": "pass_image", "layers": layers, "klass": None,
+                     "detail": {"op_index": i, "operation_bounds": list(rb), "operation_patterns": [str(x) for x in rm],
+                                "schedule_bounds": list(bounds), "schedule_patterns": [str(x) for x in maps]}}]
+    return []
+
+
 def search(ctx, deep=False):
     rng = ctx.rng
     n = ctx.n(120, 1500) * (3 if deep else 1)
@@ -276,7 +390,12 @@ def search(ctx, deep=False):
     for i in range(n):
         sp = D.gen_schedule_plain(rng, max_points=400)
         fails += check_helpers(sp, rng)
+        fails += check_affine_view(sp, rng)
         ctx.count({"L2": "helpers", "schedule": sp}, len(sp[0][0]) >= 2, f"l2h{sp}", "L2-helpers")
+    for i in range(ctx.n(25, 300) * (2 if deep else 1)):
+        layers = gen_pass_module(rng)
+        fails += check_pass(layers)
+        ctx.count({"L2": "pass", "layers": layers}, len(layers) > 1, f"l2p{layers}", "L2-pass")
     for i in range(ctx.n(250, 3000) * (3 if deep else 1)):
         tp, sp, fam = D.gen_sched_case(rng, max_points=400)
         _, _, cdesc = D.gen_checks(rng, len(sp))
@@ -306,9 +425,17 @@ def replay(ctx, obj):
     if not f:
         print("no failing input recorded; broken obligations:", obj.get("no_longer_checks"))
         return 1
+    if "layers" in f:
+        print("layers:", f["layers"])
+        res = check_pass(f["layers"])
+        for r in res:
+            print("FAIL", r["what"], r["detail"])
+        return 1 if res else 0
     sp = [(list(b), [list(r) for r in rows], list(bb)) for (b, rows, bb) in f["schedule"]]
     print("schedule:", sp)
-    if "template" in f:
+    if f.get("what", "").startswith("affine_view"):
+        res = check_affine_view(sp, ctx.rng)
+    elif "template" in f:
         tp = [(list(b), [list(r) for r in rows], list(bb)) for (b, rows, bb) in f["template"]]
         print("template:", tp, "checks:", f["checks"])
         res, _ = check_backtrack(tp, sp, f["checks"])
